@@ -241,6 +241,41 @@ for pat, what in [(r"if \(ncomps <= MAX_COMPS_IN_SCAN\) \{\s*scanptr->comps_in_s
     if not re.search(pat, jcp):
         die("jcparam.c: %s no longer has the modelled form" % what)
 
+
+# ---------------------------------------------------------------- jcmarker.c: DRI emission rule
+jcmk = strip_comments(rd("jcmarker.c"))
+m = re.search(r"if \(([^{};]*?)\) \{\s*emit_dri\(cinfo\);\s*marker->last_restart_interval = cinfo->restart_interval;\s*\}\s*emit_sos\(cinfo\);", jcmk)
+if not m:
+    die("jcmarker.c: DRI emission in write_scan_header not found")
+cond = re.sub(r"\s+", " ", m.group(1)).strip()
+if cond == "cinfo->restart_interval != marker->last_restart_interval":
+    consts["DRI_RULE"] = 1            # emit whenever the interval differs from the last one written
+elif cond == "cinfo->restart_interval && marker->last_restart_interval == 0":
+    consts["DRI_RULE"] = 2            # emit only the first non-zero interval of the image
+else:
+    die("jcmarker.c: DRI emission condition has an unknown form: " + cond)
+if len(re.findall(r"marker->last_restart_interval = 0;", jcmk)) < 2:
+    die("jcmarker.c: last_restart_interval is no longer reset in write_file_header / jinit_marker_writer")
+if not re.search(r"emit_2bytes\(cinfo, \(int\)cinfo->restart_interval\);", jcmk):
+    die("jcmarker.c: emit_dri no longer writes cinfo->restart_interval")
+# ---------------------------------------------------------------- jcapistd.c: raw-data row accounting
+jca = strip_comments(rd("jcapistd.c"))
+m = re.search(r"lines_per_iMCU_row = cinfo->max_v_samp_factor \* DCTSIZE;\s*if \(num_lines < lines_per_iMCU_row\)\s*ERREXIT\(cinfo, JERR_BUFFER_SIZE\);", jca)
+if not m:
+    die("jcapistd.c: _jpeg_write_raw_data num_lines test not found")
+m = re.search(r"cinfo->next_scanline \+= (\w+);\s*return (\w+);\s*\}\s*#endif", jca)
+if not m or m.group(1) != m.group(2):
+    die("jcapistd.c: _jpeg_write_raw_data row accounting not found")
+if m.group(1) == "lines_per_iMCU_row":
+    consts["RAW_ADVANCE"] = 1
+elif m.group(1) == "num_lines":
+    consts["RAW_ADVANCE"] = 2
+else:
+    die("jcapistd.c: _jpeg_write_raw_data advances next_scanline by an unknown amount: " + m.group(1))
+jcam = strip_comments(rd("jcapimin.c"))
+if not re.search(r"if \(cinfo->next_scanline < cinfo->image_height\)\s*ERREXIT\(cinfo, JERR_TOO_LITTLE_DATA\);", jcam):
+    die("jcapimin.c: jpeg_finish_compress too-little-data test not found")
+
 # ---------------------------------------------------------------- jcdctmgr.c (F3 fix)
 jcd = strip_comments(rd("jcdctmgr.c"))
 m = re.search(r"#define CLAMP_DIVISOR\(d\)\s+\(\(d\) > (\d+) \? \(UINT16\)(\d+) : \(UINT16\)\(d\)\)", jcd)
@@ -358,7 +393,7 @@ for k in ["DCTSIZE", "DCTSIZE2", "MAX_COMPONENTS", "MAX_COMPS_IN_SCAN", "C_MAX_B
           "MAX_COEF_BITS_ADD", "DC_EXTRA_BITS", "AHAL_PREC", "MAX_AH_AL_HI", "MAX_AH_AL_LO", "LOSSLESS_PREC_MIN", "LOSSLESS_PREC_MAX",
           "LOSSY_PREC_A", "LOSSY_PREC_B", "RESTART_MAX", "PSV_MIN", "PSV_MAX", "QUANT_MIN", "QUANT_MAX", "QUANT_BASELINE_MAX",
           "QUALITY_MIN", "QUALITY_MAX", "SP_YCC_NCOMPS", "SP_YCC_NSCANS", "SP_BIG_MUL", "SP_ADD", "SP_MUL", "SP_SIZE_RULE",
-          "SP_ALLOC_GUARD", "SP_MIN_SLOTS", "DIVISOR_CLAMP", "DIVISOR_CLAMPED_EVERYWHERE", "ZERO_QUANT_REJECTED",
+          "SP_ALLOC_GUARD", "SP_MIN_SLOTS", "DRI_RULE", "RAW_ADVANCE", "DIVISOR_CLAMP", "DIVISOR_CLAMPED_EVERYWHERE", "ZERO_QUANT_REJECTED",
           "NCOMP_CHECK_IN_VALIDATE", "REVALIDATE_AFTER_LOSSLESS", "MISSING_CODE_CHECK", "MISSING_ZRL_EOB_CHECK", "SIMD_RANGE_PRECHECK", "RESTART_CLAMP_DIRECT", "TJ_NUMSAMP", "TJ_NUMCS"]:
     out.append("Definition g_%s : Z := %d." % (k, consts[k]))
 out.append("\n(* zigzag order of encode_one_block: position 0 and the 63 kloop() arguments *)")
